@@ -47,7 +47,9 @@ ParamV == IF cx.kind = "body" THEN [v |-> "T", why |-> ""]
 (* nothing else: no query string unless the parameter lives there *)
 ExtraV == IF (cx.kind = "body" \/ odef.loc # "query") /\ o.q # <<>> THEN "F" ELSE "T"
 MethodV == IF o.m = cx.wantMethod THEN "T" ELSE "F"
-CtypeV == IF o.ct = cx.wantCtype THEN "T" ELSE "F"
+(* Content-Type = the case's media type; for multipart the client appends the boundary parameter, so only the media type is compared *)
+Multipart == cx.media \in {"multipart", "multipart-file"}
+CtypeV == IF (IF Multipart THEN MediaTypeOf(o.ct) = cx.wantCtype ELSE o.ct = cx.wantCtype) THEN "T" ELSE "F"
 
 BodyText == Utf8Decode(o.b)
 FormPairs == LET kv == QParts(o.b)
@@ -55,6 +57,7 @@ FormPairs == LET kv == QParts(o.b)
                  vs == Dec([j \in 1..Len(kv) |-> kv[j].b], "form")
              IN  {[k |-> "obj", keys |-> x, items |-> y] : x \in ks, y \in vs}
 BodyV == CASE cx.media = "none" -> IF o.b = <<>> THEN "T" ELSE "F"
+           [] Multipart -> "U"                       \* the multipart encoding is outside the fragment
            [] cx.media = "json" -> LET j == JsonParse(BodyText.t)
                                    IN  IF ~BodyText.bad /\ j.ok /\ SameTyped(j.val, oval) THEN "T" ELSE "F"
            [] cx.media = "form" -> IF \E j \in 1..Len(oval.items) : oval.items[j].t \in {"bool", "null"} THEN "U"
